@@ -68,19 +68,34 @@ func c02index(p *Prog, r *Report) {
 	fCb := p.Field(HG, "Hashgraph", "commitCallback")
 	for _, c := range callsIn(pdr, named(HG+".NewBlockFromFrame")) {
 		a := argN(c, 0)
-		ok := flowsFrom(a, func(x ssa.Value) bool {
+		loopsP := naturalLoops(pdr)
+		cLoop := innermostLoop(loopsP, c.Block())
+		// EVERY source of the index is LastBlockIndex()+1, with the store asked in the same iteration as the block is
+		// built (a counter kept across the iterations of the loop over rounds drifts away from the store as soon as
+		// an iteration consumes an index without storing a block)
+		isNext := func(x ssa.Value) bool {
 			b, ok := x.(*ssa.BinOp)
 			if !ok || b.Op != token.ADD {
 				return false
 			}
-			if k, okc := intConst(b.Y); okc && k == 1 && flowsFromCall(b.X, storeM("LastBlockIndex"), 0) {
+			fresh := func(v ssa.Value) bool {
+				return flowsFromLocal(v, func(y ssa.Value) bool {
+					lc, _, isL := isCallTo(y, storeM("LastBlockIndex"))
+					if !isL {
+						return false
+					}
+					return cLoop == nil || cLoop.body[lc.Block()]
+				})
+			}
+			if k, okc := intConst(b.Y); okc && k == 1 && fresh(b.X) {
 				return true
 			}
-			if k, okc := intConst(b.X); okc && k == 1 && flowsFromCall(b.Y, storeM("LastBlockIndex"), 0) {
+			if k, okc := intConst(b.X); okc && k == 1 && fresh(b.Y) {
 				return true
 			}
 			return false
-		})
+		}
+		ok := allSources(a, isNext)
 		r.Check(ok, rule, "ProcessDecidedRounds:index==LastBlockIndex()+1", p.ipos(c), fnName(pdr), "consecutive block indexes", "the index given to NewBlockFromFrame is not Store.LastBlockIndex()+1")
 		// frame of the same round
 		fr := argN(c, 1)
